@@ -538,5 +538,10 @@ func streamCert(focus string) {
 	for i := 0; i < n; i++ {
 		ents, profs := g.hierarchy(i)
 		runHierarchy(fmt.Sprintf("%s-%d-%d", focus, seed, i), ents, profs)
+		if focus == "c08" {
+			apiMode = true
+			runHierarchy(fmt.Sprintf("%s-%d-%d-api", focus, seed, i), ents, profs)
+			apiMode = false
+		}
 	}
 }
